@@ -173,10 +173,13 @@ class Filter(base.Filter):
                 # ... and the parent element is an HTML element that is not
                 # an a, audio, del, ins, map, noscript, or video element, or
                 # an autonomous custom element.
+                # canvas and slot are transparent too; a parser ignores
+                # their end tags while a p element is still open, so the
+                # end tag of the p has to stay there as well.
                 parent = next["name"]
                 return (parent is not None and "-" not in parent and
                         parent not in ('a', 'audio', 'del', 'ins', 'map',
-                                       'noscript', 'video'))
+                                       'noscript', 'video', 'canvas', 'slot'))
             else:
                 return type is None
         elif tagname == 'option':
